@@ -57,24 +57,38 @@ theorem spawn_pendingTask {y : Sys} (p : Nat) (k : Kind) (h : PendingTaskInv y) 
       have : p0 ≠ p := by
         intro hpp; subst hpp; rw [hidle] at hp0; rcases hp0 with h1 | h1 <;> cases h1
       simp [upd, this]
+    have keepPush : ∀ p0 res d c m, y.procs p0 = .gRegPush res w d c m → ∀ v, (upd y.procs p v) p0 = y.procs p0 := by
+      intro p0 res d c m hp0 v
+      have : p0 ≠ p := by
+        intro hpp; subst hpp; rw [hidle] at hp0; cases hp0
+      simp [upd, this]
+    -- the generic case: the queue is untouched, only slot `p` changes
+    have generic : ∀ v (y' : Sys), y'.st = y.st → y'.procs = upd y.procs p v → PendingTaskInv y' := by
+      intro v y' hst hpr w2 hw2
+      rw [hst] at hw2
+      rcases h w2 hw2 with ⟨e, en, hq, hc, he, hk, hpend⟩ | ⟨p0, res, d, c, m, hp0⟩
+      · left
+        refine ⟨e, en, by rw [hst]; exact hq, hc, he, hk, ?_⟩
+        rcases hpend with hf | ⟨p0, hp0⟩
+        · exact Or.inl hf
+        · exact Or.inr ⟨p0, by rw [hpr, keep p0 e hp0]; exact hp0⟩
+      · right
+        refine ⟨p0, res, d, c, m, ?_⟩
+        rw [hpr]
+        have : p0 ≠ p := by
+          intro hpp; subst hpp; rw [hidle] at hp0; cases hp0
+        simp [upd, this, hp0]
     cases k with
     | gen res =>
       have e0 : spawn y p (.gen res) = { y with procs := upd y.procs p (.gRead res false), born := upd y.born p y.st.clears } := by
         simp [spawn, hidle]
       rw [e0] at hw ⊢
-      obtain ⟨e, en, hq, hc, he, hpend⟩ := h w hw
-      refine ⟨e, en, hq, hc, he, ?_⟩
-      rcases hpend with hf | ⟨p0, hp0⟩
-      · exact Or.inl hf
-      · exact Or.inr ⟨p0, by simp only; rw [keep p0 e hp0]; exact hp0⟩
+      exact generic (.gRead res false)
+        { y with procs := upd y.procs p (.gRead res false), born := upd y.born p y.st.clears } rfl rfl w hw
     | update b =>
       have e0 : spawn y p (.update b) = { y with procs := upd y.procs p (.uSet b) } := by simp [spawn, hidle]
       rw [e0] at hw ⊢
-      obtain ⟨e, en, hq, hc, he, hpend⟩ := h w hw
-      refine ⟨e, en, hq, hc, he, ?_⟩
-      rcases hpend with hf | ⟨p0, hp0⟩
-      · exact Or.inl hf
-      · exact Or.inr ⟨p0, by simp only; rw [keep p0 e hp0]; exact hp0⟩
+      exact generic (.uSet b) { y with procs := upd y.procs p (.uSet b) } rfl rfl w hw
     | timer e' =>
       cases hq' : y.st.queue[e']? with
       | none =>
@@ -95,21 +109,23 @@ theorem spawn_pendingTask {y : Sys} (p : Nat) (k : Kind) (h : PendingTaskInv y) 
                        procs := upd y.procs p (.tCheck e') } := by
             unfold spawn; simp only [hidle, hq', hm]; simp [hf']
           rw [e0] at hw ⊢
-          obtain ⟨e, en, hq, hc, he, hpend⟩ := h w hw
-          by_cases hee : e = e'
-          · subst hee
-            rw [hq'] at hq; cases hq
-            refine ⟨e, { en' with fired := true }, by simp [List.getElem?_set, hlt], hc, he, Or.inr ⟨p, Or.inl (by simp)⟩⟩
-          · refine ⟨e, en, by simp [List.getElem?_set, Ne.symm hee, hq], hc, he, ?_⟩
-            rcases hpend with hf | ⟨p0, hp0⟩
-            · exact Or.inl hf
-            · exact Or.inr ⟨p0, by simp only; rw [keep p0 e hp0]; exact hp0⟩
+          rcases h w hw with ⟨e, en, hq, hc, he, hk, hpend⟩ | ⟨p0, res, d, c, m, hp0⟩
+          · left
+            by_cases hee : e = e'
+            · subst hee
+              rw [hq'] at hq; cases hq
+              exact ⟨e, { en' with fired := true }, by simp [List.getElem?_set, hlt], hc, he, hk, Or.inr ⟨p, Or.inl (by simp)⟩⟩
+            · refine ⟨e, en, by simp [List.getElem?_set, Ne.symm hee, hq], hc, he, hk, ?_⟩
+              rcases hpend with hf | ⟨p0, hp0⟩
+              · exact Or.inl hf
+              · exact Or.inr ⟨p0, by simp only; rw [keep p0 e hp0]; exact hp0⟩
+          · right
+            exact ⟨p0, res, d, c, m, by simp only; rw [keepPush p0 res d c m hp0]; exact hp0⟩
   · have e0 : spawn y p k = y := by
       unfold spawn; split
       · rename_i hh; exact absurd hh hidle
       · rfl
     rw [e0] at hw ⊢; exact h w hw
-
 
 theorem spawn_mutex {y : Sys} (p : Nat) (k : Kind) (h : MutexInv y) : MutexInv (spawn y p k) := by
   intro q
@@ -201,11 +217,59 @@ theorem spawn_pair {y : Sys} (p : Nat) (k : Kind) (h : PairInv y) : PairInv (spa
     | (simp_all [procPaired]; done))
 
 theorem spawn_queue {y : Sys} (p : Nat) (k : Kind) (h : QueueInv y) : QueueInv (spawn y p k) := by
-  unfold QueueInv at *
+  unfold QueueInv pendingPush at *
+  cases hm : y.st.mutex with
+  | none =>
+    rw [hm] at h
+    unfold spawn
+    split <;> try (simp only [hm]; exact h)
+    all_goals (repeat' split)
+    all_goals (simp_all [length_markFired])
+  | some q0 =>
+    rw [hm] at h
+    by_cases hq0 : q0 = p
+    · subst hq0
+      unfold spawn
+      split <;> try (simp only [hm]; exact h)
+      all_goals (repeat' split)
+      all_goals (simp_all [length_markFired, isPush])
+    · unfold spawn
+      split <;> try (simp only [hm]; exact h)
+      all_goals (repeat' split)
+      all_goals (simp_all [length_markFired, isPush])
+
+theorem spawn_push {y : Sys} (p : Nat) (k : Kind) (h : PushInv y) : PushInv (spawn y p k) := by
+  intro q res it d c m
+  have hq := h q res it d c m
   unfold spawn
-  split <;> try exact h
+  split <;> try exact hq
   all_goals (repeat' split)
-  all_goals (simp_all [length_markFired])
+  all_goals (by_cases hqp : q = p)
+  all_goals (first
+    | (subst hqp; simp_all; done)
+    | (simp_all; done))
+
+theorem spawn_rootNotify {y : Sys} (p : Nat) (k : Kind) (h : RootNotifyInv y) : RootNotifyInv (spawn y p k) := by
+  intro q res it
+  have hq := h q res it
+  unfold spawn
+  split <;> try exact hq
+  all_goals (repeat' split)
+  all_goals (by_cases hqp : q = p)
+  all_goals (first
+    | (subst hqp; simp_all; done)
+    | (simp_all; done))
+
+theorem spawn_cfgNotify {y : Sys} (p : Nat) (k : Kind) (h : CfgNotifyInv y) : CfgNotifyInv (spawn y p k) := by
+  intro q b m
+  have hq := h q b m
+  unfold spawn
+  split <;> try exact hq
+  all_goals (repeat' split)
+  all_goals (by_cases hqp : q = p)
+  all_goals (first
+    | (subst hqp; simp_all; done)
+    | (simp_all; done))
 
 theorem spawn_sched {y : Sys} (p : Nat) (k : Kind) (h : SchedInv y) : SchedInv (spawn y p k) := by
   obtain ⟨hq, hpr⟩ := h
@@ -259,6 +323,9 @@ structure Inv (y : Sys) : Prop where
   notify : NotifyInv y
   pendingTask : PendingTaskInv y
   roots : RootsInv y
+  push : PushInv y
+  rootNotify : RootNotifyInv y
+  cfgNotify : CfgNotifyInv y
 
 theorem inv_init (r J : Frac) : Inv (Sys.init r J) where
   mutex := by intro q; simp [Sys.init, holds]
@@ -268,11 +335,14 @@ theorem inv_init (r J : Frac) : Inv (Sys.init r J) where
   carry := by intro q k; simp [Sys.init, carried]
   samePair := by intro a b r1 r2 k1 k2 ha; simp [Sys.init] at ha
   pair := by constructor <;> simp [Sys.init, procPaired]
-  queue := by simp [QueueInv, Sys.init]
+  queue := by simp [QueueInv, pendingPush, Sys.init]
   sched := by constructor <;> simp [Sys.init, procSched]
   notify := by intro q m; simp [Sys.init, notifyMark]
   pendingTask := by intro w; simp [Sys.init]
   roots := by constructor <;> simp [Sys.init, procRootsOk]
+  push := by intro q res it d c m; simp [Sys.init]
+  rootNotify := by intro q res it; simp [Sys.init]
+  cfgNotify := by intro q b m; simp [Sys.init]
 
 theorem inv_step {y : Sys} (p : Nat) (i : Input) (h : Inv y) : Inv (step y p i) where
   mutex := step_mutex p i h.mutex
@@ -282,11 +352,14 @@ theorem inv_step {y : Sys} (p : Nat) (i : Input) (h : Inv y) : Inv (step y p i) 
   carry := step_carry p i h.mutex h.empty h.epoch h.carry
   samePair := step_samePair p i h.epoch h.carry h.samePair
   pair := step_pair p i h.pair
-  queue := step_queue p i h.queue
+  queue := step_queue p i h.mutex h.queue
   sched := step_sched p i h.sched
   notify := step_notify p i h.notify
-  pendingTask := step_pendingTask p i h.pendingTask
+  pendingTask := step_pendingTask p i h.push h.pendingTask
   roots := step_roots p i h.roots
+  push := step_push p i h.mutex h.push
+  rootNotify := step_rootNotify p i h.mutex h.rootNotify
+  cfgNotify := step_cfgNotify p i h.cfgNotify
 
 theorem inv_spawn {y : Sys} (p : Nat) (k : Kind) (h : Inv y) : Inv (spawn y p k) where
   mutex := spawn_mutex p k h.mutex
@@ -301,6 +374,9 @@ theorem inv_spawn {y : Sys} (p : Nat) (k : Kind) (h : Inv y) : Inv (spawn y p k)
   notify := spawn_notify p k h.notify
   pendingTask := spawn_pendingTask p k h.pendingTask
   roots := spawn_roots p k h.roots
+  push := spawn_push p k h.push
+  rootNotify := spawn_rootNotify p k h.rootNotify
+  cfgNotify := spawn_cfgNotify p k h.cfgNotify
 
 theorem inv_apply {y : Sys} (a : Act) (h : Inv y) : Inv (apply y a) := by
   cases a with
